@@ -398,7 +398,7 @@ impl<'a> WrappedLogosLexer<'a> {
 
     let loc = Location { module_reference: self.module_reference, start, end };
     let chars = &remainder_bytes[..comment_length];
-    if chars[2] == b'*' {
+    if chars.len() > 4 && chars[2] == b'*' {
       Some((
         true,
         loc,
